@@ -76,6 +76,19 @@ CMPOPS = {
 }
 
 
+def _has_own_yield(fn_node):
+    """does the function body contain a yield of its own (yields of nested functions / lambdas do not count)?"""
+    stack = list(fn_node.body)
+    while stack:
+        n = stack.pop()
+        if isinstance(n, (ast.Yield, ast.YieldFrom)):
+            return True
+        if isinstance(n, (ast.FunctionDef, ast.AsyncFunctionDef, ast.Lambda, ast.ClassDef)):
+            continue
+        stack.extend(ast.iter_child_nodes(n))
+    return False
+
+
 class IFunc:
     """interpreted function (closure)"""
 
@@ -87,9 +100,7 @@ class IFunc:
         self.qualname = qualname or node.name
         self.defaults = defaults or []
         self.kwdefaults = kwdefaults or {}
-        self.is_gen = any(isinstance(n, (ast.Yield, ast.YieldFrom)) for n in ast.walk(node)) if not isinstance(
-            node, ast.Lambda
-        ) else False
+        self.is_gen = _has_own_yield(node) if not isinstance(node, ast.Lambda) else False
 
     def __repr__(self):
         return "<IFunc %s>" % self.qualname
